@@ -52,6 +52,14 @@ func (g *gen) pick(xs []string) string { return xs[g.s.Intn(len(xs))] }
 // arrays. Real formulas look like this ("sum of 200 terms").
 func genDeep(s *Stream, cfg genCfg) string {
 	n := 20 + s.Intn(cfg.maxNodes*6)
+	if s.Intn(16) == 0 { // now and then a really long sum: thousands of terms, as a generated report formula has
+		n = 1500 + s.Intn(4500)
+		parts := make([]string, n)
+		for i := range parts {
+			parts[i] = []string{"1", "n1", "2.5", "n2", "7"}[s.Intn(5)]
+		}
+		return strings.Join(parts, " + ")
+	}
 	leaf := func() string {
 		return []string{"1", "n1", "2.5", "n2", "o1.a", "$a", "7", "n3"}[s.Intn(8)]
 	}
@@ -431,6 +439,14 @@ type simpleStruct struct {
 	F float64
 }
 
+// otherStruct has the same field names at other positions.
+type otherStruct struct {
+	F float64
+	Pad bool
+	S string
+	N int
+}
+
 func genDataSpec(s *Stream) dataSpec {
 	d := dataSpec{Variant: s.Intn(4)}
 	for i := 0; i < 8; i++ {
@@ -517,6 +533,9 @@ func (d dataSpec) build(log *hostLog, loc *time.Location) map[string]interface{}
 		"as1": []string{"a", "b", strs[(d.Nums[3]+1000)%len(strs)]},
 		"an1": []interface{}{d.num(1), d.num(2), decimal.New(int64(d.Nums[3]), 1)},
 		"st1": simpleStruct{N: d.Nums[0], S: "st", F: 1.5},
+	}
+	if d.Flags[1]%2 == 1 { // the same name holds another struct type in about half of the data maps
+		m["st1"] = otherStruct{N: d.Nums[0], S: "st", F: 1.5, Pad: true}
 	}
 	switch d.Variant {
 	case 0:
